@@ -127,6 +127,8 @@ class ListWrapper(typing.MutableSequence[T]):
         return len(self._data)
 
     def insert(self, i: int, v: T) -> None:
+        # An index that a list refuses is refused before the hook runs.
+        list(self._data).insert(i, v)
         self._add(v)
         return self._data.insert(i, v)
 
